@@ -1156,7 +1156,8 @@ fn c11(sim: &mut Sim, d: &Delivery) -> u64 {
     }
     let n = d.parts.len();
     let mut masks: Vec<u32> = Vec::new();
-    if n <= 5 {
+    let exhaustive_up_to = if crate::profiles::thorough() { 8 } else { 5 };
+    if n <= exhaustive_up_to {
         masks.extend(0..(1u32 << (n - 1)));
     } else {
         // deterministic sample: all-split, all-joined-but-one, and a few derived from the bytes
